@@ -88,6 +88,10 @@ def mtl_backward(
     if tasks_params is None:
         tasks_params = [_get_leaf_tensors(tensors=[loss], excluded=features) for loss in losses]
 
+    # Materialize the (possibly one-shot) iterables before they are traversed by the checks below.
+    shared_params = list(shared_params)
+    tasks_params = [list(task_params) for task_params in tasks_params]
+
     if len(features) == 0:
         raise ValueError("`features` cannot be empty.")
 
@@ -98,9 +102,6 @@ def mtl_backward(
         raise ValueError("`losses` cannot be empty")
     if len(losses) != len(tasks_params):
         raise ValueError("`losses` and `tasks_params` should have the same size.")
-
-    shared_params = list(shared_params)
-    tasks_params = [list(task_params) for task_params in tasks_params]
 
     for param in [*shared_params, *(p for task_params in tasks_params for p in task_params)]:
         _check_expects_grad(param)
